@@ -503,6 +503,110 @@ func randErrors(r *kit.RNG, f *gf.Field, n, t int) [][2]int {
 	return out
 }
 
+// craftedErrors returns an error set of weight e <= t whose magnitudes are
+// chosen so that a chosen set of e-1 syndromes is ZERO although the word is
+// damaged ("arbitrarily corrupted" includes the adversary's choice): the first
+// few, the last few, or a random subset. A decoder that looks at only some of
+// the syndromes, or stops at the first zeros, takes such a word for clean or
+// for a lighter error. Returns nil if no all-non-zero solution was found.
+func craftedErrors(r *kit.RNG, f *gf.Field, n, rpar int) [][2]int {
+	t := rpar / 2
+	if t < 2 || n < 2 {
+		return nil
+	}
+	e := r.Range(2, minInt(t, minInt(n, 12)))
+	// which syndromes vanish
+	var J []int
+	switch r.Intn(4) {
+	case 0: // the first e-1
+		for j := 0; j < e-1; j++ {
+			J = append(J, j)
+		}
+	case 1: // the last e-1
+		for j := rpar - e + 1; j < rpar; j++ {
+			J = append(J, j)
+		}
+	case 2: // every second one from the start
+		for j := 0; len(J) < e-1 && j < rpar; j += 2 {
+			J = append(J, j)
+		}
+	default:
+		J = r.Sample(rpar, e-1)
+	}
+	if len(J) != e-1 {
+		return nil
+	}
+	pos := r.Sample(n, e)
+	sort.Ints(pos)
+	// matrix rows: for j in J, coefficients alpha^((j+Base)*deg_k), deg_k = n-1-pos_k
+	q1 := f.Size - 1
+	A := make([][]int, len(J))
+	for i, j := range J {
+		A[i] = make([]int, e)
+		for k, p := range pos {
+			A[i][k] = f.Alpha(((j + f.Base) * (n - 1 - p)) % q1)
+		}
+	}
+	// Gaussian elimination over GF(2^m); free variable = last column without pivot
+	rows, cols := len(A), e
+	pivCol := make([]int, 0, rows)
+	rr := 0
+	for c := 0; c < cols && rr < rows; c++ {
+		p := -1
+		for i := rr; i < rows; i++ {
+			if A[i][c] != 0 {
+				p = i
+				break
+			}
+		}
+		if p < 0 {
+			continue
+		}
+		A[rr], A[p] = A[p], A[rr]
+		inv := f.Inv(A[rr][c])
+		for k := c; k < cols; k++ {
+			A[rr][k] = f.Mul(A[rr][k], inv)
+		}
+		for i := 0; i < rows; i++ {
+			if i != rr && A[i][c] != 0 {
+				m := A[i][c]
+				for k := c; k < cols; k++ {
+					A[i][k] ^= f.Mul(m, A[rr][k])
+				}
+			}
+		}
+		pivCol = append(pivCol, c)
+		rr++
+	}
+	isPiv := make([]bool, cols)
+	for _, c := range pivCol {
+		isPiv[c] = true
+	}
+	free := -1
+	for c := cols - 1; c >= 0; c-- {
+		if !isPiv[c] {
+			free = c
+			break
+		}
+	}
+	if free < 0 {
+		return nil
+	}
+	x := make([]int, cols)
+	x[free] = r.Range(1, f.Size-1)
+	for i, c := range pivCol {
+		x[c] = f.Mul(A[i][free], x[free]) // x_c + A[i][free]*x_free = 0 (characteristic 2)
+	}
+	var out [][2]int
+	for k, p := range pos {
+		if x[k] == 0 {
+			return nil
+		}
+		out = append(out, [2]int{p, x[k]})
+	}
+	return out
+}
+
 func minInt(a, b int) int {
 	if a < b {
 		return a
@@ -760,7 +864,7 @@ func C04() *kit.Spec {
 		Level:    "fault_enumeration",
 		Rule: "one evaluation = one word sent through real encoder -> simulated codeword channel -> real decoder; faults = symbol errors (position, non-zero magnitude) within the budget floor(r/2). " +
 			"Enumerated exhaustively: all field products/inverses/logs of the six fields; every single error (position x magnitude; magnitude sample for GF(1024)/GF(4096)) on every block shape the 2-D symbologies use; all double-error position pairs for codes of length <= 40. " +
-			"Seeded: error sets of weight 1..t incl. exactly t, bursts, both ends, parity-only/data-only, on every real shape and on random shapes. distinct_nontrivial = distinct hashes of seeded (shape, data, error set) with at least one error; exhaustive sweeps are counted in evaluations only",
+			"Seeded: error sets of weight 1..t incl. exactly t, bursts, both ends, parity-only/data-only, and adversarial sets whose magnitudes make a chosen subset of the syndromes vanish (solved over the reference field), on every real shape and on random shapes. distinct_nontrivial = distinct hashes of seeded (shape, data, error set) with at least one error; exhaustive sweeps are counted in evaluations only",
 		StateMetric: "distinct (field,k,r,data,error set) transmissions; plus exhaustive counters per sweep",
 		Assumptions: []string{
 			"reference field arithmetic (shift-and-reduce modulo the standards' primitive polynomials, alpha = 2, generator base 0 for QR and 1 otherwise) is the oracle; it is checked for primitivity of alpha at run time",
@@ -774,7 +878,7 @@ func C04() *kit.Spec {
 			"codeword channel":               "simulated medium (harness)",
 			"gf.Field / Parity / Syndromes":  "reference model (harness)",
 		},
-		FaultKinds:  []string{"none(control)", "symbol_errors_below_t", "symbol_errors_exactly_t", "symbol_errors_on_a_reused_decoder"},
+		FaultKinds:  []string{"none(control)", "symbol_errors_below_t", "symbol_errors_exactly_t", "symbol_errors_on_a_reused_decoder", "symbol_errors_with_chosen_syndromes_zero"},
 		SimTimeNote: "none: no timers; logical steps = words transmitted",
 		NumRuns:     func(tier string) int { return len(jobs(tier)) },
 		Run: func(c *kit.Ctx) {
@@ -913,6 +1017,12 @@ func C04() *kit.Spec {
 					budget -= int64(s.k+s.r)*int64(s.r) + 10*int64(s.r)*int64(s.r) + int64(s.f.Size)*int64(s.r)/2
 					tr := &Trace04{Kind: "tx", Field: s.f.Name, K: s.k, R: s.r, Data: randData(r, s.f, s.k)}
 					tr.Errors = randErrors(r, s.f, s.k+s.r, s.r/2)
+					if r.Chance(1, 4) {
+						if ce := craftedErrors(r, s.f, s.k+s.r, s.r); ce != nil {
+							tr.Errors = ce
+							probe("fault.symbol_errors_with_chosen_syndromes_zero")
+						}
+					}
 					if c.Run%50 == 7 && i == 0 {
 						c.Sample(tr)
 					}
